@@ -164,8 +164,8 @@ pub fn compare_declared(native: &AggregateUDF, foreign: &AggregateUDF, lists: &[
     let show = |t: &[DataType]| t.iter().map(|x| x.to_string()).collect::<Vec<_>>().join(", ");
     for t in &probe {
         let fields: Vec<FieldRef> = t.iter().enumerate().map(|(i, d)| engine::field(i, d)).collect();
-        let n = mc_core::catch(|| fields_with_udf(&fields, native));
-        let f = mc_core::catch(|| fields_with_udf(&fields, foreign));
+        let n = engine::catch_native(|| fields_with_udf(&fields, native));
+        let f = engine::catch_foreign(|| fields_with_udf(&fields, foreign));
         *ops += 2;
         let types = |v: &Vec<FieldRef>| v.iter().map(|x| x.data_type().clone()).collect::<Vec<_>>();
         let mut fs = vec![];
@@ -282,8 +282,8 @@ pub fn compare_config(native: &AggregateUDF, foreign: &AggregateUDF, s: &Setup, 
     cmp(
         &mut findings,
         "return_field",
-        mc_core::catch(|| native.return_field(&s.fields)),
-        mc_core::catch(|| foreign.return_field(&s.fields)),
+        engine::catch_native(|| native.return_field(&s.fields)),
+        engine::catch_foreign(|| foreign.return_field(&s.fields)),
         |x, y| field_text(x) == field_text(y),
         |x| field_text(x),
     );
@@ -294,11 +294,11 @@ pub fn compare_config(native: &AggregateUDF, foreign: &AggregateUDF, s: &Setup, 
     };
     *ops += 2;
     let texts = |v: &Vec<FieldRef>| v.iter().map(field_text).collect::<Vec<_>>().join("; ");
-    cmp(&mut findings, "state_fields", mc_core::catch(|| sf(native)), mc_core::catch(|| sf(foreign)), |x, y| texts(x) == texts(y), |x| texts(x));
+    cmp(&mut findings, "state_fields", engine::catch_native(|| sf(native)), engine::catch_foreign(|| sf(foreign)), |x, y| texts(x) == texts(y), |x| texts(x));
     // groups_accumulator_supported
     *ops += 2;
-    let gn = mc_core::catch(|| native.groups_accumulator_supported(acc_args(&a, s, c)));
-    let gf = mc_core::catch(|| foreign.groups_accumulator_supported(acc_args(&a, s, c)));
+    let gn = engine::catch_native(|| native.groups_accumulator_supported(acc_args(&a, s, c)));
+    let gf = engine::catch_foreign(|| foreign.groups_accumulator_supported(acc_args(&a, s, c)));
     if gn != gf {
         findings.push(Finding { symptom: "groups-accumulator-supported-differs".into(), what: format!("groups_accumulator_supported: native {gn:?}, foreign {gf:?}") });
     }
@@ -320,7 +320,7 @@ pub fn compare_sequence(native: &AggregateUDF, foreign: &AggregateUDF, s: &Setup
             continue;
         }
         st.ops += 2;
-        let made = cmp(&mut findings, "accumulator", mc_core::catch(|| native.accumulator(acc_args(&a, s, c))), mc_core::catch(|| foreign.accumulator(acc_args(&a, s, c))), |_, _| true, |_| "accumulator".into());
+        let made = cmp(&mut findings, "accumulator", engine::catch_native(|| native.accumulator(acc_args(&a, s, c))), engine::catch_foreign(|| foreign.accumulator(acc_args(&a, s, c))), |_, _| true, |_| "accumulator".into());
         let Some((mut an, mut af)) = made else { continue };
         if format!("{af:?}").contains("ForeignAccumulator") {
             st.foreign_accumulators += 1;
@@ -333,7 +333,7 @@ pub fn compare_sequence(native: &AggregateUDF, foreign: &AggregateUDF, s: &Setup
         for (lo, len) in &parts {
             let part: Vec<ArrayRef> = values.iter().map(|v| v.slice(*lo, *len)).collect();
             st.ops += 2;
-            if cmp(&mut findings, "update_batch", mc_core::catch(|| an.update_batch(&part)), mc_core::catch(|| af.update_batch(&part)), |_, _| true, |_| "()".into()).is_none() {
+            if cmp(&mut findings, "update_batch", engine::catch_native(|| an.update_batch(&part)), engine::catch_foreign(|| af.update_batch(&part)), |_, _| true, |_| "()".into()).is_none() {
                 alive = false;
                 break;
             }
@@ -343,7 +343,7 @@ pub fn compare_sequence(native: &AggregateUDF, foreign: &AggregateUDF, s: &Setup
         }
         if cut == n {
             st.ops += 2;
-            if let Some((x, _)) = cmp(&mut findings, "evaluate", mc_core::catch(|| an.evaluate()), mc_core::catch(|| af.evaluate()), |x, y| x == y, sv_text) {
+            if let Some((x, _)) = cmp(&mut findings, "evaluate", engine::catch_native(|| an.evaluate()), engine::catch_foreign(|| af.evaluate()), |x, y| x == y, sv_text) {
                 st.evaluated_ok += 1;
                 if !x.is_null() {
                     st.nonnull_results += 1;
@@ -351,23 +351,23 @@ pub fn compare_sequence(native: &AggregateUDF, foreign: &AggregateUDF, s: &Setup
             }
         } else {
             st.ops += 2;
-            let states = cmp(&mut findings, "state", mc_core::catch(|| an.state()), mc_core::catch(|| af.state()), |x, y| x == y, svs_text);
+            let states = cmp(&mut findings, "state", engine::catch_native(|| an.state()), engine::catch_foreign(|| af.state()), |x, y| x == y, svs_text);
             let Some((sn, _sf)) = states else { continue };
             // merge the state (taken from the native accumulator: both are equal) twice into fresh accumulators
             let arrays: Option<Vec<ArrayRef>> = sn.iter().map(|v| mc_core::catch(|| ScalarValue::iter_to_array(vec![v.clone(), v.clone()])).ok().and_then(|r| r.ok())).collect();
             let Some(arrays) = arrays else { continue };
             st.ops += 2;
             let Some((mut mn, mut mf)) =
-                cmp(&mut findings, "accumulator", mc_core::catch(|| native.accumulator(acc_args(&a, s, c))), mc_core::catch(|| foreign.accumulator(acc_args(&a, s, c))), |_, _| true, |_| "accumulator".into())
+                cmp(&mut findings, "accumulator", engine::catch_native(|| native.accumulator(acc_args(&a, s, c))), engine::catch_foreign(|| foreign.accumulator(acc_args(&a, s, c))), |_, _| true, |_| "accumulator".into())
             else {
                 continue;
             };
             st.ops += 2;
-            if cmp(&mut findings, "merge_batch", mc_core::catch(|| mn.merge_batch(&arrays)), mc_core::catch(|| mf.merge_batch(&arrays)), |_, _| true, |_| "()".into()).is_none() {
+            if cmp(&mut findings, "merge_batch", engine::catch_native(|| mn.merge_batch(&arrays)), engine::catch_foreign(|| mf.merge_batch(&arrays)), |_, _| true, |_| "()".into()).is_none() {
                 continue;
             }
             st.ops += 2;
-            if let Some((x, _)) = cmp(&mut findings, "evaluate-after-merge", mc_core::catch(|| mn.evaluate()), mc_core::catch(|| mf.evaluate()), |x, y| x == y, sv_text) {
+            if let Some((x, _)) = cmp(&mut findings, "evaluate-after-merge", engine::catch_native(|| mn.evaluate()), engine::catch_foreign(|| mf.evaluate()), |x, y| x == y, sv_text) {
                 st.evaluated_ok += 1;
                 if !x.is_null() {
                     st.nonnull_results += 1;
@@ -382,8 +382,8 @@ pub fn compare_sequence(native: &AggregateUDF, foreign: &AggregateUDF, s: &Setup
         let made = cmp(
             &mut findings,
             "create_sliding_accumulator",
-            mc_core::catch(|| native.create_sliding_accumulator(acc_args(&a, s, c))),
-            mc_core::catch(|| foreign.create_sliding_accumulator(acc_args(&a, s, c))),
+            engine::catch_native(|| native.create_sliding_accumulator(acc_args(&a, s, c))),
+            engine::catch_foreign(|| foreign.create_sliding_accumulator(acc_args(&a, s, c))),
             |_, _| true,
             |_| "accumulator".into(),
         );
@@ -392,13 +392,13 @@ pub fn compare_sequence(native: &AggregateUDF, foreign: &AggregateUDF, s: &Setup
                 findings.push(Finding { symptom: "sliding-supports-retract-differs".into(), what: format!("sliding accumulator.supports_retract_batch: native {}, foreign {}", an.supports_retract_batch(), af.supports_retract_batch()) });
             }
             st.ops += 2;
-            let ok = cmp(&mut findings, "sliding-update_batch", mc_core::catch(|| an.update_batch(&values)), mc_core::catch(|| af.update_batch(&values)), |_, _| true, |_| "()".into()).is_some();
+            let ok = cmp(&mut findings, "sliding-update_batch", engine::catch_native(|| an.update_batch(&values)), engine::catch_foreign(|| af.update_batch(&values)), |_, _| true, |_| "()".into()).is_some();
             if ok && an.supports_retract_batch() {
                 let first: Vec<ArrayRef> = values.iter().map(|v| v.slice(0, 1)).collect();
                 st.ops += 2;
-                if cmp(&mut findings, "retract_batch", mc_core::catch(|| an.retract_batch(&first)), mc_core::catch(|| af.retract_batch(&first)), |_, _| true, |_| "()".into()).is_some() {
+                if cmp(&mut findings, "retract_batch", engine::catch_native(|| an.retract_batch(&first)), engine::catch_foreign(|| af.retract_batch(&first)), |_, _| true, |_| "()".into()).is_some() {
                     st.ops += 2;
-                    if let Some((x, _)) = cmp(&mut findings, "evaluate-after-retract", mc_core::catch(|| an.evaluate()), mc_core::catch(|| af.evaluate()), |x, y| x == y, sv_text) {
+                    if let Some((x, _)) = cmp(&mut findings, "evaluate-after-retract", engine::catch_native(|| an.evaluate()), engine::catch_foreign(|| af.evaluate()), |x, y| x == y, sv_text) {
                         st.evaluated_ok += 1;
                         if !x.is_null() {
                             st.nonnull_results += 1;
@@ -410,15 +410,15 @@ pub fn compare_sequence(native: &AggregateUDF, foreign: &AggregateUDF, s: &Setup
     }
 
     // ---- groups accumulator: rows alternate between two groups; with and without a filter
-    let supported = mc_core::catch(|| native.groups_accumulator_supported(acc_args(&a, s, c))).unwrap_or(false);
+    let supported = engine::catch_native(|| native.groups_accumulator_supported(acc_args(&a, s, c))).unwrap_or(false);
     if supported && n >= 1 {
         for filtered in [false, true] {
             st.ops += 2;
             let made = cmp(
                 &mut findings,
                 "create_groups_accumulator",
-                mc_core::catch(|| native.create_groups_accumulator(acc_args(&a, s, c))),
-                mc_core::catch(|| foreign.create_groups_accumulator(acc_args(&a, s, c))),
+                engine::catch_native(|| native.create_groups_accumulator(acc_args(&a, s, c))),
+                engine::catch_foreign(|| foreign.create_groups_accumulator(acc_args(&a, s, c))),
                 |_, _| true,
                 |_| "groups accumulator".into(),
             );
@@ -431,8 +431,8 @@ pub fn compare_sequence(native: &AggregateUDF, foreign: &AggregateUDF, s: &Setup
             if cmp(
                 &mut findings,
                 "groups-update_batch",
-                mc_core::catch(|| gn.update_batch(&values, &groups, filter.as_ref(), total)),
-                mc_core::catch(|| gf.update_batch(&values, &groups, filter.as_ref(), total)),
+                engine::catch_native(|| gn.update_batch(&values, &groups, filter.as_ref(), total)),
+                engine::catch_foreign(|| gf.update_batch(&values, &groups, filter.as_ref(), total)),
                 |_, _| true,
                 |_| "()".into(),
             )
@@ -445,8 +445,8 @@ pub fn compare_sequence(native: &AggregateUDF, foreign: &AggregateUDF, s: &Setup
                 cmp(
                     &mut findings,
                     "convert_to_state",
-                    mc_core::catch(|| gn.convert_to_state(&values, filter.as_ref())),
-                    mc_core::catch(|| gf.convert_to_state(&values, filter.as_ref())),
+                    engine::catch_native(|| gn.convert_to_state(&values, filter.as_ref())),
+                    engine::catch_foreign(|| gf.convert_to_state(&values, filter.as_ref())),
                     |x, y| x.len() == y.len() && x.iter().zip(y).all(|(p, q)| arrays_eq(p, q)),
                     |x| x.iter().map(arrays_text).collect::<Vec<_>>().join("; "),
                 );
@@ -457,8 +457,8 @@ pub fn compare_sequence(native: &AggregateUDF, foreign: &AggregateUDF, s: &Setup
                 let states = cmp(
                     &mut findings,
                     "groups-state",
-                    mc_core::catch(|| gn.state(EmitTo::First(1))),
-                    mc_core::catch(|| gf.state(EmitTo::First(1))),
+                    engine::catch_native(|| gn.state(EmitTo::First(1))),
+                    engine::catch_foreign(|| gf.state(EmitTo::First(1))),
                     |x, y| x.len() == y.len() && x.iter().zip(y).all(|(p, q)| arrays_eq(p, q)),
                     |x| x.iter().map(arrays_text).collect::<Vec<_>>().join("; "),
                 );
@@ -467,22 +467,22 @@ pub fn compare_sequence(native: &AggregateUDF, foreign: &AggregateUDF, s: &Setup
                     let made = cmp(
                         &mut findings,
                         "create_groups_accumulator",
-                        mc_core::catch(|| native.create_groups_accumulator(acc_args(&a, s, c))),
-                        mc_core::catch(|| foreign.create_groups_accumulator(acc_args(&a, s, c))),
+                        engine::catch_native(|| native.create_groups_accumulator(acc_args(&a, s, c))),
+                        engine::catch_foreign(|| foreign.create_groups_accumulator(acc_args(&a, s, c))),
                         |_, _| true,
                         |_| "groups accumulator".into(),
                     );
                     if let Some((mut mn, mut mf)) = made {
                         st.ops += 2;
-                        if cmp(&mut findings, "groups-merge_batch", mc_core::catch(|| mn.merge_batch(&sn, &[0], 1)), mc_core::catch(|| mf.merge_batch(&sn, &[0], 1)), |_, _| true, |_| "()".into()).is_some() {
+                        if cmp(&mut findings, "groups-merge_batch", engine::catch_native(|| mn.merge_batch(&sn, &[0], 1)), engine::catch_foreign(|| mf.merge_batch(&sn, &[0], 1)), |_, _| true, |_| "()".into()).is_some() {
                             st.ops += 2;
-                            cmp(&mut findings, "groups-evaluate-after-merge", mc_core::catch(|| mn.evaluate(EmitTo::All)), mc_core::catch(|| mf.evaluate(EmitTo::All)), arrays_eq, arrays_text);
+                            cmp(&mut findings, "groups-evaluate-after-merge", engine::catch_native(|| mn.evaluate(EmitTo::All)), engine::catch_foreign(|| mf.evaluate(EmitTo::All)), arrays_eq, arrays_text);
                         }
                     }
                 }
             }
             st.ops += 2;
-            if let Some((x, _)) = cmp(&mut findings, "groups-evaluate", mc_core::catch(|| gn.evaluate(EmitTo::All)), mc_core::catch(|| gf.evaluate(EmitTo::All)), arrays_eq, arrays_text) {
+            if let Some((x, _)) = cmp(&mut findings, "groups-evaluate", engine::catch_native(|| gn.evaluate(EmitTo::All)), engine::catch_foreign(|| gf.evaluate(EmitTo::All)), arrays_eq, arrays_text) {
                 st.evaluated_ok += 1;
                 if x.null_count() < x.len() {
                     st.nonnull_results += 1;
